@@ -66,6 +66,12 @@ def cases(tier: str, seed: int) -> list[dict]:
                             "mesh": mc, "rho": rho_forms[(k + j + r) % 3]})
             out.append({"kind": "thermal", "dim": dim, "et": et, "mesh": ["patch", "gmsh"][(k + r) % 2], "rho": rho_forms[(k + r + 1) % 3]})
             k += 1
+        # several element groups of the main dimension in one mesh (merged conforming blocks)
+        for pair in ["TRI3+QUAD4", "TRI6+QUAD8", "TRI6+QUAD9", "PRISM6+HEXA8"] + (["PRISM15+HEXA20"] if tier == "thorough" else []):
+            dim = 2 if pair.startswith("TRI") else 3
+            out.append({"kind": "elastic", "dim": dim, "et": pair, "law": gmat.KINDS[(k + r) % 4], "ps": bool(k % 2), "mesh": "mixed", "rho": "scalar"})
+            out.append({"kind": "thermal", "dim": dim, "et": pair, "mesh": "mixed", "rho": "scalar"})
+            k += 1
         for et in gm.ET_1D:
             out.append({"kind": "thermal", "dim": 1, "et": et, "mesh": "line", "rho": rho_forms[(k + r) % 3]})
             k += 1
